@@ -638,9 +638,46 @@ def check_memo_keys(ctx, rep, rule='C11.M', only=None):
         for cname, cnode in m.classes.items():
             for fn in [b for b in cnode.body if isinstance(b, ast.FunctionDef)]:
                 params = {a.arg for a in fn.args.args + fn.args.kwonlyargs} - {'self', 'cls'}
-                if not params or fn.name in ('__init__', 'from_json', 'json_factory'):
+                if fn.name in ('__init__', 'from_json', 'json_factory'):
                     continue
                 defs = local_assignments(fn)
+                if not params:
+                    # a value derived from the tensor of a parameter the object holds, kept under a guard that compares only its shape / dtype / device: assigning a new
+                    # value of the same shape leaves the old one in place — unless a change handler of the class drops the cache
+                    ci_ = ctx.classes.find(f"{m.name}.{cname}")
+                    for node in ast.walk(fn):
+                        if not (isinstance(node, ast.If) and isinstance(node.test, ast.BoolOp) and isinstance(node.test.op, ast.Or)):
+                            continue
+                        first = node.test.values[0]
+                        if not (isinstance(first, ast.Compare) and len(first.ops) == 1 and isinstance(first.ops[0], ast.Is) and self_attr(first.left)
+                                and isinstance(first.comparators[0], ast.Constant) and first.comparators[0].value is None):
+                            continue
+                        cache = self_attr(first.left)
+                        stores = [st for st in node.body if isinstance(st, ast.Assign) and any(self_attr(tg) == cache for tg in st.targets)]
+                        value_compared = False
+                        for other in node.test.values[1:]:
+                            for x in ast.walk(other):
+                                if isinstance(x, (ast.Name, ast.Attribute)) and not isinstance(getattr(x, '_parent', None), ast.Attribute) \
+                                        and not (isinstance(x, ast.Attribute) and x.attr in ('shape', 'dtype', 'device', 'ndim')):
+                                    par_ = getattr(x, '_parent', None)
+                                    if not (isinstance(par_, ast.Call) and isinstance(par_.func, ast.Name) and par_.func.id in ('len', 'type', 'id')):
+                                        value_compared = True
+                        for st in stores:
+                            deps = sorted({self_attr(x.value) for e in backward_slice(st.value, defs) for x in ast.walk(e)
+                                           if isinstance(x, ast.Attribute) and x.attr == 'tensor' and self_attr(x.value)})
+                            if not deps:
+                                continue
+                            n += 1
+                            dropped = False
+                            if ci_ is not None:
+                                for hn in ('handle_parameter_changed', 'handle_model_changed'):
+                                    r_ = ci_.resolve(hn)
+                                    if r_ and any(isinstance(y, ast.Assign) and any(self_attr(t) == cache for t in y.targets) for y in ast.walk(r_[1])):
+                                        dropped = True
+                            rep.check(rule, f"{m.name}.{cname}.{fn.name}::self.{cache}", value_compared or dropped, where(m, st), {'derived_from': deps, 'guard': norm_text(node.test)[:100]},
+                                      f"{cname}.{fn.name} keeps `{norm_text(st.value)[:60]}`, computed from the tensor of self.{deps[0]}, in self.{cache} and recomputes it only when its "
+                                      f"shape / dtype / device changes: after `{deps[0]}.tensor = <new value of the same shape>` every holder still gets the value (or a view) of the old tensor")
+                    continue
                 for node in ast.walk(fn):
                     if not isinstance(node, ast.If):
                         continue
